@@ -112,6 +112,71 @@ func (c *Ctx) ruleDisabled(rule string) {
 				"every value such a producer emits sets the property, and Unserialize, Validate, Serialize and the data-mode check of the consumer refuse every value that does: the producer can never be consumed")
 		}
 	}
+	// schema mode, the mirror image: a producer that declares a property but has it disabled never supplies it (its own
+	// Serialize refuses every value that uses it). Where the object comparison decides whether a property the consumer
+	// requires is supplied - a loop over the consumer's properties that calls Required() on the entry and rejects - the
+	// decision must look at the Disabled flag of the producer's property, not only at its presence.
+	for _, fn := range c.compatFuncs() {
+		for _, l := range c.findMapLoops(c.M, fn) {
+			if l.kind != "range" || len(fn.Params) == 0 || !reachedFrom(l.mapVal, fn.Params[0], 0) {
+				continue
+			}
+			mt, ok := l.mapVal.Type().Underlying().(*types.Map)
+			if !ok || !isNamedPtr(mt.Elem(), "PropertySchema") {
+				continue
+			}
+			isEntry := func(v ssa.Value) bool {
+				ex, ok := core.Unwrap(v).(*ssa.Extract)
+				if !ok || ex.Index != 2 {
+					return false
+				}
+				nx, ok := ex.Tuple.(*ssa.Next)
+				return ok && nx.Block() == l.header
+			}
+			requiredAsked, rejects := false, false
+			var flagRead ssa.Instruction
+			for b := range l.blocks {
+				for _, in := range b.Instrs {
+					switch x := in.(type) {
+					case *ssa.Call:
+						if sc := x.Call.StaticCallee(); sc != nil && sc.Name() == "Required" && len(x.Call.Args) == 1 && isEntry(x.Call.Args[0]) {
+							requiredAsked = true
+						}
+					case *ssa.Return:
+						if ei := core.ErrorResultIndex(fn.Signature); ei >= 0 && errDefinitelyNonNil(core.RetVal(x, ei), b) {
+							rejects = true
+						}
+					case *ssa.UnOp:
+						fa, ok := x.X.(*ssa.FieldAddr)
+						if !ok || !isNamedPtr(fa.X.Type(), "PropertySchema") || fieldName(fa.X.Type(), fa.Field) != "Disabled" {
+							continue
+						}
+						if isEntry(fa.X) || reachedFrom(fa.X, fn.Params[0], 0) {
+							continue // the consumer's own flag
+						}
+						// used as a branch condition
+						if refs := x.Referrers(); refs != nil {
+							for _, r := range *refs {
+								if _, isIf := r.(*ssa.If); isIf {
+									flagRead = x
+								}
+							}
+						}
+					}
+				}
+			}
+			if !requiredAsked || !rejects {
+				continue
+			}
+			k := key(rule, c.M.Key(fn), "a required property is not counted as supplied by a producer that has it disabled")
+			if flagRead != nil {
+				c.R.Ok(rule, k, c.M.InstrPos(flagRead), "presence test for the consumer's required properties (schema mode)", "the loop branches on the Disabled flag of the producer's property")
+			} else {
+				c.R.Bad(rule, k, c.M.Pos(l.pos), "the presence test for a required property never looks at the producer's Disabled flag",
+					"a producer that declares the property but has it disabled never emits it (its Serialize refuses every value that uses it): the consumer, which requires it, refuses everything the producer can emit, and the two are reported compatible")
+			}
+		}
+	}
 	c.R.Floor(rule, 4)
 }
 
